@@ -81,3 +81,78 @@ from_data = Contract("C03.MultiLineFastaBuffer.from_data[line table]", target=la
                                ("header length", "name_lengths + 2", "name_lengths + 1")])
 
 CONTRACTS = [from_data]
+
+
+# --- NpBufferedWriter.write: the header is emitted exactly once -----------------------------------------------------------------------------
+# Class invariant of a writer: `_header_written` is true iff this writer has emitted the header bytes.  Contract of one write(table) call:
+#   bytes emitted = [header, iff the buffer type has make_header, the file is not opened in append mode 'ab' and no header was emitted before]
+#                   ++ [from_data(table), iff the table is not empty],
+# and the invariant holds again.  By induction over the calls any split of the rows into successive writes emits the header once.
+from pyvc.core import SFile
+
+
+def _W():
+    from bionumpy.io.parser import NpBufferedWriter
+    return NpBufferedWriter
+
+
+class _BT:
+    def __init__(self, st, has_header):
+        self.st, self.has_header = st, has_header
+
+    def sym_hasattr(self, name):
+        return name == "make_header" and self.has_header
+
+    def getattr(self, ip, name, lineno):
+        st = self.st
+
+        class _F:
+            def __init__(s_, what):
+                s_.what = what
+
+            def sym_call(s_, ip, args, kwargs, lineno):
+                if s_.what == "make_header":
+                    return "HEADER-BYTES"
+                return st.body
+        if name in ("make_header", "from_data"):
+            return _F(name)
+        raise Exception("buffer type attribute " + name)
+
+
+def _setup_w(mode, hw, has_header):
+    def setup(ctx):
+        st = St()
+        st.n = z3.Int("n_rows")
+        st.body = SArr.fresh(z3.Int("body_len"), lambda p: z3.Function("body", z3.IntSort(), z3.IntSort())(I(p)))
+        st.file = SFile(0, lambda p: 0)
+        st.file.mode = mode
+        st.file.writes = []
+        st.mode, st.hw, st.has_header = mode, hw, has_header
+        st.selfv = SRec(_W(), _file_obj=st.file, _buffer_type=_BT(st, has_header), _header_written=hw, _f_name="f")
+        st.args = [STable({"chromosome": SArr.fresh(st.n, lambda i: 0)}, st.n)]
+        ctx.assume(st.n >= 0)
+        return st
+    return setup
+
+
+def _ens_w(ctx, st, ret):
+    expect_header = st.has_header and st.mode != "ab" and not st.hw
+    w = st.file.writes
+    emitted_header = len(w) > 0 and w[0] == "HEADER-BYTES"
+    n_body = len([x for x in w if x is not "HEADER-BYTES"])
+    return [("header.emitted.iff.due", emitted_header == expect_header),
+            ("header.at.most.once.per.call", len([x for x in w if x == "HEADER-BYTES"]) <= 1),
+            ("invariant: flag set iff a header has been emitted by this writer", bool(st.selfv.get("_header_written")) == (st.hw or emitted_header)),
+            ("body.emitted.iff.the.table.is.not.empty", Ite(st.n > 0, n_body == 1, n_body == 0)),
+            ("body.is.from_data(table)", n_body == 0 or any(x is st.body for x in w))]
+
+
+WRITERS = []
+for mode in ("wb", "ab"):
+    for hw in (False, True):
+        for hh in (True, False):
+            WRITERS.append(Contract("C03.NpBufferedWriter.write[mode=%s,header already written=%s,buffer has header=%s]" % (mode, hw, hh),
+                                    target=lambda: _W().write, setup=_setup_w(mode, hw, hh), ensures=_ens_w,
+                                    dropped=["docstring", "logger.debug call"],
+                                    canaries=[("flag set only after a body was written", "                self._header_written = True\n", "                pass\n")] if (mode == "wb" and not hw and hh) else []))
+CONTRACTS += WRITERS
